@@ -182,6 +182,13 @@ impl<'a> GenC<'a> {
             }
             1 => {
                 let mut ids = self.subset(&names, false);
+                if names.len() >= 16 && self.rng.chance(2, 3) {
+                    // a few names struck from a large set
+                    let mut all = names.clone();
+                    self.rng.shuffle(&mut all);
+                    let few = self.rng.range(2, 4) as usize;
+                    ids = all.into_iter().take(few).collect();
+                }
                 if self.absent_ids && self.rng.chance(1, 2) {
                     let a = self.absent_name(&inner, &names);
                     ids.push(a);
@@ -245,6 +252,11 @@ fn generate_c(seed: u64, quick: bool) -> Value {
     if rng.chance(1, 5) {
         // a library with many exports
         libs.insert("(lt big)".into(), (0..20).map(|i| format!("n{}", i)).collect());
+    }
+    if rng.chance(1, 5) {
+        // a library with values that are not equal to themselves (a not-a-number real, and a
+        // vector holding one): the same binding twice in one declaration is still one binding
+        libs.insert("(lt odd)".into(), vec!["nan".into(), "nanvec".into()]);
     }
     if rng.chance(1, 4) {
         // a library that passes on two of (lt one)'s exports under their own names
@@ -345,6 +357,9 @@ fn lib_text(key: &str, exports: &[String]) -> String {
     if key == "(lt facade)" {
         return format!("(define-library (lt facade) (import (lt one)) (export {}))", exports.join(" "));
     }
+    if key == "(lt odd)" {
+        return "(define-library (lt odd) (import (scheme base)) (export nan nanvec) (begin (define nan (sqrt -1)) (define nanvec (vector 1 (sqrt -1)))))".to_string();
+    }
     if key == "(lt procs)" {
         return format!(
             "(define-library (lt procs) (import (scheme base)) (export {}))",
@@ -427,7 +442,18 @@ fn observe_once(case: &Value, dir: Option<std::path::PathBuf>) -> Observation {
             let name = library_name_of(&parts_ref);
             match delivery.as_str() {
                 "native" => {
-                    let items: Vec<(String, RValue<f32>)> = if key == "(lt procs)" {
+                    let items: Vec<(String, RValue<f32>)> = if key == "(lt odd)" {
+                        vec![
+                            ("nan".to_string(), RValue::Number(Number::Real(f32::NAN))),
+                            (
+                                "nanvec".to_string(),
+                                RValue::Vector(ruschm::values::ValueReference::new_mutable(vec![
+                                    RValue::Number(Number::Integer(1)),
+                                    RValue::Number(Number::Real(f32::NAN)),
+                                ])),
+                            ),
+                        ]
+                    } else if key == "(lt procs)" {
                         PROC_EXPORTS
                             .iter()
                             .map(|(e, b)| (e.to_string(), refs.iter().find(|r| r.0 == *b).unwrap().1.clone()))
@@ -559,6 +585,14 @@ fn execute_c(case: &Value) -> RunResult {
     // model: the reference module system
     let mut m = Machine::new_empty();
     for (key, exports) in &libs {
+        if key == "(lt odd)" {
+            m.world.insert(
+                key.clone(),
+                LibEntry::Native(vec![("nan".to_string(), NativeVal::Sym("@nan".into())), ("nanvec".to_string(), NativeVal::Sym("@nanvec".into()))]),
+            );
+            res.count("probe.values_not_equal_to_themselves");
+            continue;
+        }
         if key == "(lt procs)" {
             m.world.insert(
                 key.clone(),
@@ -612,6 +646,8 @@ fn execute_c(case: &Value) -> RunResult {
                     (
                         k.clone(),
                         match v {
+                            RV::Sym(t) if t == "@nan" => "<other num NaN>".to_string(),
+                            RV::Sym(t) if t == "@nanvec" => "#(1 <other num NaN>)".to_string(),
                             RV::Builtin(b) => format!("proc:{}", b),
                             _ => obs_of_rv(&m, v).short(),
                         },
